@@ -58,7 +58,7 @@ def blacklistCallName (e : Env) (c : CallView) : M (Option Str) :=
         | none => throw .keyError
     else pure (some q)
 
-def blacklistRun (t : BlTables) (e : Env) : M (Option Raw) :=
+def blacklistRun (t : BlTables) (e : Env) : M (Option PRaw) :=
   let n := e.node
   if n.isKind "Call" then
     match n.asCall? with
